@@ -408,7 +408,8 @@ def topological_sort(nodes):
     def model_sort_rotate():
         node = nodes[index]
         for dep in node.dependencies():
-            if dep not in known and dep in available:
+            dep = providers.get(dep)
+            if dep is not None and dep not in known and dep != node.name:
                 found_index = find_first_dep(dep, index + 1)
                 if found_index:
                     nodes.insert(index, nodes.pop(found_index))
@@ -416,10 +417,19 @@ def topological_sort(nodes):
         known.add(node.name)
 
     known = set(x + y for x in "uir" for y in ["8", "16", "32", "64"])
-    available = set(node.name for node in nodes)
+    providers = {}
+    """Maps a symbol to the name of the node which defines it (an enumerator is defined by its enum)."""
+    for node in nodes:
+        providers.setdefault(node.name, node.name)
+        if isinstance(node, Enum):
+            for member in node.members:
+                providers.setdefault(member.name, node.name)
     for index in range(len(nodes)):
+        rotations = 0
         while model_sort_rotate():
-            pass
+            rotations += 1
+            if rotations > len(nodes):
+                raise ModelError("Cyclic dependency of definitions involving '%s'." % nodes[index].name)
 
 
 def _make_types_index(nodes_):
